@@ -109,6 +109,15 @@ def slice_where(data, pred):
     return [x[1] for x in out]
 
 
+def replace_range(d, position, count, values):
+    d = list(d)
+    hit = [i for i in range(len(d)) if (
+        position <= i < position + count if count >= 0 else i >= position)]
+    if not hit:
+        return d
+    return d[:hit[0]] + list(values) + d[hit[-1] + 1:]
+
+
 def accumulate(data, fn, *seed):
     it = iter(data)
     if not seed:
@@ -166,6 +175,13 @@ CASES = [
      lambda d: accumulate(d, lambda a, b: a + b), COLLS),
     ('accumulate/seed', '$.accumulate($1 + $2, 5)',
      lambda d: accumulate(d, lambda a, b: a + b, 5), COLLS),
+    # a null seed / a null first element is a value like any other
+    ('accumulate/null-seed', '$.accumulate([$1, $2], null)',
+     lambda d: accumulate(d, lambda a, b: [a, b], None), COLLS),
+    ('accumulate/null-first', '[null].concat($).accumulate([$1, $2])',
+     lambda d: accumulate((None,) + tuple(d), lambda a, b: [a, b]), COLLS),
+    ('aggregate/null-seed', '$.aggregate([$1, $2], null)',
+     lambda d: functools.reduce(lambda a, b: [a, b], d, None), COLLS),
     ('zip', '$.zip($.select($ + 5))',
      lambda d: [[x, x + 5] for x in d], COLLS),
     ('join', '$.join($, $1 >= $2, [$1, $2])',
@@ -205,6 +221,19 @@ INT_CASES = [
     ('replace', '$[0].replace($[1], 9)',
      lambda d, n: (list(d[:n]) + [9] + list(d[n + 1:])) if 0 <= n < len(d)
      else (list(d) if n >= 0 else 'skip')),
+    # replace(position, value, count): the elements with an index in
+    # [position, position + count) - all from position on for a negative
+    # count - give way to ONE value, wherever that range lies
+    ('replace/count=2', '$[0].replace($[1], 9, 2)',
+     lambda d, n: replace_range(d, n, 2, [9])),
+    ('replace/count=-1', '$[0].replace($[1], 9, -1)',
+     lambda d, n: replace_range(d, n, -1, [9])),
+    ('replace/count=0', '$[0].replace($[1], 9, 0)',
+     lambda d, n: replace_range(d, n, 0, [9])),
+    ('replaceMany/count=2', '$[0].replaceMany($[1], [8, 9], 2)',
+     lambda d, n: replace_range(d, n, 2, [8, 9])),
+    ('replaceMany/count=-1', '$[0].replaceMany($[1], [8, 9], -1)',
+     lambda d, n: replace_range(d, n, -1, [8, 9])),
     ('indexOf', '$[0].indexOf($[1])',
      lambda d, n: list(d).index(n) if n in d else -1),
     ('lastIndexOf', '$[0].lastIndexOf($[1])',
